@@ -84,6 +84,7 @@ def base_comps(task, tier):
                     for var in c03.variants(s, tier)[:4] + [dict(tol=1e-2)]:
                         kw = dict(tol=1e-10)
                         kw.update(var)
+                        kw = R.fix_kw(s, dn, kw)
                         sspec = dict(name=s, kw=kw)
                         Cbox = ps.get("alpha") if ps["name"] == "IndicatorBox" else None
                         feas = feasible_starts(p_eff, fit_intercept_of(sspec), Cbox)
